@@ -13,6 +13,8 @@ def map_exprs(t, fn):
         t["items"] = [[n, fn(e)] for n, e in t["items"]]
     elif k == "filter":
         t["cond"] = fn(t["cond"])
+    elif k == "exclude":
+        t["cols"] = [fn(e) for e in t["cols"]]
     elif k == "sort":
         t["keys"] = [[d, fn(e)] for d, e in t["keys"]]
     elif k == "join":
@@ -66,10 +68,39 @@ def rw_let_prefix(rng, prog, via_into=False):
     return p, "let_prefix@%d" % c["at"]
 
 
-def rw_let_twice(rng, prog):
-    """name a prefix and reference it twice (self join on all-equal unique key is too strong; use append of itself)"""
-    cuts = [c for c in prog.get("cuts", []) if c["at"] == len(prog["main"])]
-    return None
+def rw_inline_lets(rng, prog):
+    """The reverse of naming a prefix: every reader of a let-table gets the let's pipeline inline
+    (`from l` -> `from l = (<pipeline of l>)`, likewise join / append), the alias keeping the qualifier that
+    later references use.  A let with several readers is thereby compared with as many private copies."""
+    if not prog.get("lets") or prog.get("module"):
+        return None
+    refs = grel.let_refs(prog)
+    if not refs:
+        return None
+    p = copy.deepcopy(prog)
+    defs = {}
+
+    def inline(pipe):
+        for t in pipe:
+            s = t.get("src")
+            if s:
+                if s["k"] == "let" and not s.get("module"):
+                    name = s["name"]
+                    t["src"] = {"k": "pipe", "pipe": copy.deepcopy(defs[name])}
+                    if t["t"] in ("from", "join") and not t.get("alias"):
+                        t["alias"] = name
+                elif s["k"] == "pipe":
+                    inline(s["pipe"])
+            if t["t"] in ("group", "window"):
+                inline(t["pipe"])
+    for name, pipe in p["lets"]:
+        inline(pipe)               # earlier lets are already inline-free
+        defs[name] = pipe
+    inline(p["main"])
+    p["lets"] = []
+    p["cuts"] = []
+    p.pop("module", None)
+    return p, "inline_lets:%d" % min(max(refs.values()), 3)
 
 
 def collect_scalar_sites(prog):
@@ -341,7 +372,7 @@ def inherited(w, p2, db, dialect, o2, under):
     return "inherits:none:" + relcheck.shape_of(rp)[:120]
 
 
-REWRITES = [rw_let_prefix, rw_function, rw_function, rw_function_compound, rw_split_filter, rw_merge_filters, rw_identity, rw_identity, rw_module]
+REWRITES = [rw_let_prefix, rw_inline_lets, rw_function, rw_function, rw_function_compound, rw_split_filter, rw_merge_filters, rw_identity, rw_identity, rw_module]
 
 
 def _shard(seed, shard, n_bases):
@@ -358,9 +389,13 @@ def _shard(seed, shard, n_bases):
         w.db_open("d", grel.db_stmts(db))
         for _ in range(8):
             try:
-                if rng.random() < 0.4:
+                c0 = rng.random()
+                if c0 < 0.35:
                     prog = grel.boundary_program(rng)
                     obs["boundary_bases"] = obs.get("boundary_bases", 0) + 1
+                elif c0 < 0.55:
+                    prog = grel.shared_program(rng)
+                    obs["shared_let_bases"] = obs.get("shared_let_bases", 0) + 1
                 else:
                     prog = grel.random_program(rng, rng.choice(["core", "core", "project", "sort", "window"]))
                 src = grel.pp_program(prog)
@@ -379,9 +414,9 @@ def _shard(seed, shard, n_bases):
                 obs["bases_ok"] += 1
             # every rewrite kind that applies to this base is tried once (the structural ones first:
             # filter split/merge apply to few bases and must not depend on being drawn), then random extras
-            plan = [rw_split_filter, rw_merge_filters, rw_let_prefix] + [rng.choice(REWRITES) for _ in range(3)]
+            plan = [rw_split_filter, rw_merge_filters, rw_let_prefix, rw_inline_lets] + [rng.choice(REWRITES) for _ in range(3)]
             if base_bad:
-                plan = plan[:4]
+                plan = plan[:5]
             for ri, rw in enumerate(plan):
                 if rw is rw_let_prefix and ri == 2 and prog.get("boundary_at"):
                     if not base_bad and o.sql:
@@ -485,7 +520,7 @@ def run(tier, seed):
     run.coverage = {
         "evaluations": obs.get("pairs", 0),
         "distinct_nontrivial": len(nt),
-        "rule": "pair = (base program whose execution agrees with the reference model, rewritten program) on the same database; rewrites: name a prefix with let and continue from it, abstract a scalar expression into a user function (positional / piped / named-with-default / named-given), split a conjunctive filter, merge consecutive filters, insert frame identities (filter true, select of all columns, repeated sort, derive-then-drop), move a let into a module and refer to it by path; compositions of two; 40% of the bases are boundary programs (from | select | .. | END | START | ..) for every pairing of the transform kind that ends the let-extracted prefix with the kind that starts the suffix, cut exactly there; "
+        "rule": "pair = (base program whose execution agrees with the reference model, rewritten program) on the same database; rewrites: name a prefix with let and continue from it, inline every reader of a let-table (a let with several readers vs as many private copies), abstract a scalar expression into a user function (positional / piped / named-with-default / named-given), split a conjunctive filter, merge consecutive filters, insert frame identities (filter true, select of all columns, repeated sort, derive-then-drop), move a let into a module and refer to it by path; compositions of two; 20% of the bases are shared-let programs (a let-table, often ending in a sort, read by other lets / the main pipeline / joins / appends); 35% of the bases are boundary programs (from | select | .. | END | START | ..) for every pairing of the transform kind that ends the let-extracted prefix with the kind that starts the suffix, cut exactly there; "
                 "distinct non-trivial = distinct (rewrite kind, base transform-kind sequence) whose two SQL texts differ",
         "samples": [],
     }
